@@ -534,6 +534,19 @@ def r03_5(ctx, parts=('dict', 'str', 'iadd')):
         ctx.require(ok, 'R03.5', f'from_dict({label})', ctx.where(fd),
                     f'from_dict({d}) gives {outs}; expected ' + ('the message with these values and the defaults' if excs is None else f'a refusal ({"/".join(excs)})')
                     + ' - it must go through the checked constructor', construct=f'{fd.qname}::funnel')
+    # the checks have no memory: a value refused for its type is refused whatever was accepted before it (a set or cache of
+    # "values already checked" finds 5.0 under 5 - equal and equally hashed - and lets the float through)
+    for label, first, second in (('note 5 accepted, then note 5.0', dict(good), dict(good, note=5.0)),
+                                 ('defaults accepted, then velocity 64.0', dict(good), dict(good, velocity=64.0))) if 'dict' in parts else ():
+        def thunk_h():
+            ai.call_function(fd, [ClassRef(base), ADict(dict(first))], {})
+            return ai.call_function(fd, [ClassRef(base), ADict(dict(second))], {})
+        outs = ai.explore(thunk_h)
+        ctx.call_sites += 1
+        ok = bool(outs) and all(o_.kind == 'raise' and o_.exc in ('TypeError',) for o_ in outs)
+        ctx.require(ok, 'R03.5', f'from_dict({label})', ctx.where(fd),
+                    f'from_dict({first}) and then from_dict({second}) gives {outs}; expected a refusal (TypeError) of the second, as on a fresh start',
+                    construct=f'{fd.qname}::history')
     for label, text, excs in (('valid', 'note_on channel=3 note=5', None), ('velocity 200', 'note_on velocity=200', ('ValueError',)),
                               ('attribute of another type', 'note_on pitch=0', ('ValueError',)), ('unknown type', 'no_such_message', ('ValueError',)),
                               ('a constructor parameter as a word', 'note_on skip_checks=1 velocity=200', ('ValueError',)),
